@@ -257,7 +257,11 @@ cpdef Dense matmul_csr_dense_dense(CSR left, Dense right,
                     idx_r += 1
     if tmp is None:
         return out
-    memcpy(tmp.data, out.data, ncols * nrows * sizeof(double complex))
+    # `out` is the Fortran-ordered working copy of the caller's C-ordered
+    # matrix `tmp`: write the result back in the caller's memory order.
+    for row in range(nrows):
+        for idx_r in range(ncols):
+            tmp.data[row * ncols + idx_r] = out.data[idx_r * nrows + row]
     return tmp
 
 
@@ -610,7 +614,11 @@ cpdef Dense matmul_dag_dense_csr_dense(
 
     if tmp is None:
         return out
-    memcpy(tmp.data, out.data, ncols * nrows * sizeof(double complex))
+    # `out` is the Fortran-ordered working copy of the caller's C-ordered
+    # matrix `tmp`: write the result back in the caller's memory order.
+    for row in range(nrows):
+        for col in range(right.shape[0]):
+            tmp.data[row * right.shape[0] + col] = out.data[col * nrows + row]
     return tmp
 
 
